@@ -89,6 +89,7 @@ where
 {
     fn run(self: Rc<Self>, state: State<U, E>) -> SResult<U, E> {
         let smap = state.get_smap();
+        let bindings_before = smap.len();
         let dstore = state.get_dstore();
 
         let uwalk = smap.walk(&self.u);
@@ -153,7 +154,7 @@ where
                 // Same application of constraining domain is done for the other two variables.
                 //
                 // The constraint is not dropped until all variables converge into numbers.
-                Ok(state
+                state
                     .process_domain(
                         &wwalk,
                         Rc::new(FiniteDomain::from(
@@ -172,7 +173,7 @@ where
                             wmin.saturating_sub(umax)..=wmax.saturating_sub(umin),
                         )),
                     )?
-                    .with_constraint(self))
+                    .keep_constraint(self, bindings_before)
             }
             // If all operators do not yet have domains, then keep the constraint until it can
             // be used to constrain some domains.
